@@ -545,6 +545,10 @@ def check(ctx, rep):
 
     # ------------------------------------------------------------------ R20e
     body_writer_obligations(ctx, rep, "R20e")
+    # ------------------------------------------------------------------ R20h
+    rep.rule("R20h", "a client that has gone away arrives as an exception in its handler: the server never gives SIGPIPE a disposition other than "
+             "'ignore' (with the default one the write kills the worker - or, threaded, the whole server - before anything is logged)", floor=0)
+    sigpipe_obligations(ctx, rep, "R20h")
     # ------------------------------------------------------------------ R20g
     rep.rule("R20g", "what the protocol writes reaches the socket - and fails - inside the connection handler's try: the handler's output file is "
              "unbuffered (wbufsize 0, no buffering wrapper), or the handler flushes it before the try ends; a buffered remainder would be sent by "
@@ -749,6 +753,40 @@ def _fold_const(node):
             return None
         return ops[type(node.op)](a, b)
     return None
+
+
+def sigpipe_obligations(ctx, rep, rule="R20h"):
+    prog = ctx.prog
+    sites = []
+    n = 0
+    for f in list(prog.all_functions()):
+        if not f.module.name.startswith("pygopherd") or ".tests" in f.module.name or f.module.name.endswith("testutil"):
+            continue
+        for node in ast.walk(f.node):
+            if not isinstance(node, ast.Call):
+                continue
+            d = dotted(node.func) or ""
+            if d in ("signal.signal", "signal.sigaction") and node.args:
+                n += 1
+                which = dotted(node.args[0]) or norm(node.args[0])
+                disp = (dotted(node.args[1]) or norm(node.args[1])) if len(node.args) > 1 else ""
+                if "SIGPIPE" in which and not disp.endswith("SIG_IGN"):
+                    sites.append((f, node, f"SIGPIPE is given the disposition {disp or '?'}"))
+                elif not which.startswith("signal.SIG") and "SIGPIPE" not in which and not isinstance(node.args[0], ast.Constant):
+                    # a signal chosen at run time (a loop over a table of signals) may be SIGPIPE
+                    tbl = norm(node.args[0])
+                    if any("SIGPIPE" in norm(x) for x in ast.walk(f.module.tree) if isinstance(x, (ast.Attribute, ast.Constant))):
+                        sites.append((f, node, f"a signal taken from `{tbl}` - the module names SIGPIPE - is given the disposition {disp}"))
+            if d in ("signal.set_wakeup_fd",):
+                n += 1
+    bin_mod = [m for m in prog.modules.values() if m.relpath.startswith("bin/")]
+    for f, node, what in sites:
+        rep.add(rule, f"{f.qualname}: {norm(node)[:60]}", False, ctx.where(f, node),
+                f"{what}: Python starts with SIGPIPE ignored, which is what turns a write to a closed connection into BrokenPipeError inside the "
+                "handler; with another disposition the worker (or the threaded server) dies in the write - nothing is logged, nothing is closed",
+                key=f"{rule}|{f.qualname}|{norm(node)[:50]}")
+    if not sites:
+        rep.ok(rule, f"SIGPIPE keeps the interpreter's 'ignore' disposition [{n} signal installations looked at]", "pygopherd/sighandlers.py", "", key=f"{rule}|none")
 
 
 class _PathObj:
